@@ -16,7 +16,9 @@
 (* RegisterPipeline over an occupied slot and RemovePipeline release the   *)
 (* old version's nodes (idle), RemovePipelineAndNodes removes them (gone)  *)
 (* in the same atomic step that empties the slot.  At quiescence the       *)
-(* recorder probes every version with RemoveNode ("nprobe").               *)
+(* recorder probes every version with RemoveNode ("nprobe").  A           *)
+(* registration whose definition is refused ("regbad": filter -> sink) is  *)
+(* no step at all: its version stays idle and no Send ever reads it.       *)
 (*                                                                         *)
 (* The module is written for trace validation: Traces holds recorded       *)
 (* histories (invocation / response events in global sequence order, with  *)
@@ -40,7 +42,7 @@ Fld(r, f, d) == IF f \in DOMAIN r THEN r[f] ELSE d
 Inv == /\ l <= Len(H) /\ H[l].k = "inv"
        /\ pend' = Append(pend, [op |-> H[l].op, kind |-> H[l].kind, pid |-> Fld(H[l], "pid", "-"), ver |-> Fld(H[l], "ver", 0),
                                st |-> "inv", visited |-> {}, seen |-> {}, any |-> "?"])
-       /\ nst' = IF H[l].kind = "reg" THEN nst @@ (H[l].ver :> "idle") ELSE nst   \* its nodes were registered before the call
+       /\ nst' = IF H[l].kind \in {"reg", "regbad"} THEN nst @@ (H[l].ver :> "idle") ELSE nst   \* its nodes were registered before the call
        /\ l' = l + 1 /\ UNCHANGED <<tr, slots>>
 Burst == l <= Len(H) /\ H[l].k = "resp"
 (* linearisation point of an update of slot pid; the Sends in S read the old value just before it *)
@@ -67,6 +69,7 @@ Resp == /\ l <= Len(H) /\ H[l].k = "resp" /\ H[l].op \in Ops
                         pend[i].seen \cup rest = (IF "res" \in DOMAIN H[l] THEN {H[l].res[j] : j \in 1..Len(H[l].res)} ELSE {})
                    [] pend[i].kind = "isany" -> pend[i].st = "lin" /\ pend[i].any = H[l].any
                    [] pend[i].kind = "rpan" -> pend[i].st = "lin" /\ pend[i].any = H[l].removed   \* true exactly when it found the pipeline
+                   [] pend[i].kind = "regbad" -> H[l].err = "t"   \* refused: no step of the registry, its version never enters a slot
                    [] pend[i].kind = "nprobe" -> H[l].res = (CASE nst[pend[i].ver] = "live" -> "inuse" [] nst[pend[i].ver] = "idle" -> "ok" [] OTHER -> "notfound")
                    [] pend[i].kind = "sprobe" -> H[l].res = (IF \E p \in PIDs : slots[p] # 0 THEN "inuse" ELSE "ok")   \* a node shared by all pipelines
                    [] OTHER -> pend[i].st = "lin"
